@@ -28,8 +28,12 @@ func (a *SparseReal32Vector) Equals(b ConstVector, epsilon float64) bool {
   }
   for it := a.JOINT_ITERATOR(b); it.Ok(); it.Next() {
     s1, s2 := it.GET()
+    // an entry that is not stored is zero
     if s1 == nil {
-      return false
+      if !s2.Equals(ConstFloat64(0.0), epsilon) {
+        return false
+      }
+      continue
     }
     if !s1.Equals(s2, epsilon) {
       return false
@@ -43,11 +47,18 @@ func (a *SparseReal32Vector) EQUALS(b *SparseReal32Vector, epsilon float64) bool
   }
   for it := a.JOINT_ITERATOR_(b); it.Ok(); it.Next() {
     s1, s2 := it.GET()
+    // an entry that is not stored is zero
     if s1 == nil {
-      return false
+      if !s2.Equals(ConstFloat64(0.0), epsilon) {
+        return false
+      }
+      continue
     }
     if s2 == nil {
-      return false
+      if !s1.Equals(ConstFloat64(0.0), epsilon) {
+        return false
+      }
+      continue
     }
     if !s1.EQUALS(s2, epsilon) {
       return false
